@@ -1,5 +1,6 @@
 import NopModel.Lemmas.Size
 import NopModel.Lemmas.SizeExact
+import NopModel.Lemmas.EncWBound
 /-! C06 — GetSize never under-estimates; buffer writes never exceed capacity. -/
 namespace Nop
 
@@ -40,6 +41,64 @@ theorem C06_buffer_write_fits (room : Nat) (t : Ty) (v : Val) (h : HChan) (hroom
 theorem C06_buffer_write_refused (room : Nat) (t : Ty) (v : Val) (h : HChan) (hroom : room < size t v) :
     serializerWrite room t v h = .error .writeLimitReached := by
   simp [serializerWrite, hroom]
+
+/-- **On every path the writer is handed at most `Size(value)` bytes.** Whatever the type and the
+value (well-typed or not), whatever the writer's state (armed fault script, budgets of enclosing
+BoundedWriters, capacity, handle answers), success or failure: the calls `Encoding<T>::Write`
+issues append at most `size t v` bytes and never remove any. -/
+theorem C06_write_bounded_on_every_path (t : Ty) (v : Val) (s : Snk) (r : Except Err Unit) (s' : Snk)
+    (h : encW t v s = (r, s')) :
+    s.out.length ≤ s'.out.length ∧ s'.out.length ≤ s.out.length + size t v := by
+  obtain ⟨h1, h2, _⟩ := bnd_encW t v s r s' h
+  exact ⟨h1, h2⟩
+
+/-- **An unchecked `BufferWriter` is never written past its end.** `BufferWriter::Write` and
+`Skip` do not look at the capacity (`checked := false`); only `Prepare` does. Because
+`Serializer::Write` calls `Prepare(Size(value))` first and no path emits more than that, the
+bytes accepted never exceed the capacity `c` - for every type, every value, every outcome
+(including a handle writer failing half-way and values the encoder refuses). -/
+theorem C06_unchecked_writer_within_capacity (t : Ty) (v : Val) (s : Snk) (c : Nat)
+    (hcap : s.cap = some c) (hle : s.out.length ≤ c) (r : Except Err Unit) (s' : Snk)
+    (h : serialize t v s = (r, s')) : s'.out.length ≤ c := by
+  unfold serialize at h
+  rw [bindW_run] at h
+  obtain ⟨p1, p2, p3, p4, _⟩ := preW_same s
+  unfold wPrepare at h
+  by_cases hf : framesOk (size t v) s.frames = true
+  · simp only [hf, Bool.not_true, Bool.false_eq_true, ↓reduceIte] at h
+    cases hp : s.pre with
+    | mk e s1 =>
+      rw [hp] at h p1 p3
+      simp only at p1 p3
+      cases e with
+      | some e =>
+        simp only [Prod.mk.injEq] at h
+        obtain ⟨_, rfl⟩ := h
+        rw [p1]; exact hle
+      | none =>
+        simp only at h
+        by_cases hr : s1.room (size t v) = true
+        · simp only [hr, ↓reduceIte] at h
+          obtain ⟨_, h2, _⟩ := bnd_encW t v s1 r s' h
+          have : s1.out.length + size t v ≤ c := by
+            unfold Snk.room at hr
+            rw [p3, hcap] at hr
+            simpa using hr
+          omega
+        · simp only [hr, Bool.false_eq_true, ↓reduceIte, Prod.mk.injEq] at h
+          obtain ⟨_, rfl⟩ := h
+          rw [p1]; exact hle
+  · simp only [hf, Bool.not_false, ↓reduceIte, Prod.mk.injEq] at h
+    obtain ⟨_, rfl⟩ := h
+    exact hle
+
+/-- non-vacuity: an unchecked 9-byte buffer, a value of size 9 (string entry in a table): all 9
+bytes land inside; with 8 bytes `Prepare` refuses and nothing is written -/
+example : (serialize (.table 5 [(1, false)] [.str 0 1]) (.list [.tag 1 (.list [.int 104, .int 105])])
+    ({ cap := some 9, checked := false } : Snk)).2.out = [0xb5, 5, 1, 1, 4, 0xbd, 2, 104, 105] ∧
+    (serialize (.table 5 [(1, false)] [.str 0 1]) (.list [.tag 1 (.list [.int 104, .int 105])])
+    ({ cap := some 8, checked := false } : Snk)) = (.error .writeLimitReached, { cap := some 8, checked := false }) := by
+  constructor <;> rfl
 
 /-- non-vacuity: a concrete nested value is encodable and the bound is attained -/
 example : ∃ bs h', encode (.seq .vector (.prod .struct [.int .i16 .plain, .opt (.float false)]))
